@@ -488,11 +488,44 @@ func init() {
 
 	// ---------------- sync ----------------
 	nop := func(ex *Exec, _ *frame, _ *ssa.Function, a []Value) Value { return nil }
-	for _, n := range []string{"(*sync.Mutex).Lock", "(*sync.Mutex).Unlock", "(*sync.RWMutex).Lock", "(*sync.RWMutex).Unlock",
-		"(*sync.RWMutex).RLock", "(*sync.RWMutex).RUnlock", "(*sync.WaitGroup).Add", "(*sync.WaitGroup).Done", "(*sync.WaitGroup).Wait"} {
+	for _, n := range []string{"(*sync.RWMutex).RLock", "(*sync.RWMutex).RUnlock", "(*sync.WaitGroup).Add", "(*sync.WaitGroup).Done", "(*sync.WaitGroup).Wait"} {
 		reg(n, nop)
 	}
-	reg("(*sync.Mutex).TryLock", func(ex *Exec, _ *frame, _ *ssa.Function, a []Value) Value { return ex.ts.True })
+	// Exclusive locks are counters per mutex object (tasks run to completion, so a lock is never
+	// held across tasks; what the count gives is TryLock = "is this mutex held right now").
+	lockKey := func(v Value) any {
+		if p, ok := v.(*Value); ok {
+			return p
+		}
+		return v
+	}
+	lock := func(ex *Exec, _ *frame, _ *ssa.Function, a []Value) Value {
+		if ex.locks == nil {
+			ex.locks = map[any]int{}
+		}
+		ex.locks[lockKey(a[0])]++
+		return nil
+	}
+	unlock := func(ex *Exec, _ *frame, _ *ssa.Function, a []Value) Value {
+		if ex.locks != nil && ex.locks[lockKey(a[0])] > 0 {
+			ex.locks[lockKey(a[0])]--
+		}
+		return nil
+	}
+	reg("(*sync.Mutex).Lock", lock)
+	reg("(*sync.RWMutex).Lock", lock)
+	reg("(*sync.Mutex).Unlock", unlock)
+	reg("(*sync.RWMutex).Unlock", unlock)
+	reg("(*sync.Mutex).TryLock", func(ex *Exec, _ *frame, _ *ssa.Function, a []Value) Value {
+		if ex.locks == nil {
+			ex.locks = map[any]int{}
+		}
+		if ex.locks[lockKey(a[0])] > 0 {
+			return ex.ts.False
+		}
+		ex.locks[lockKey(a[0])]++
+		return ex.ts.True
+	})
 	reg("(*sync.Once).Do", func(ex *Exec, fr *frame, _ *ssa.Function, a []Value) Value {
 		p := a[0].(*Value)
 		if ex.onceDone == nil {
